@@ -385,7 +385,7 @@ class Antecedent:
         if not state & (s_variable | s_and_or):  # only acceptable final states
             if state & s_is:
                 raise SyntaxError(f"expected keyword '{Rule.IS}' after '{token}'")
-            if stack & (s_hedge | s_term):
+            if state & (s_hedge | s_term):
                 raise SyntaxError(f"expected hedge or term, but found '{token}'")
 
         if len(stack) != 1:
